@@ -1,4 +1,31 @@
-(* Proofs/Stream_drain.v — liveness half of C01 / C02 / C09 for the stream core. *)
+(* Proofs/Stream_drain.v — the liveness half of C01 / C02 / C09 for the stream core:
+   the eager drain.  Stream_quiet.v says what holds ONCE the tunnel is quiescent; this
+   file shows that it BECOMES quiescent when the environment stops making it wait:
+
+     eager_drain            (= Stream_quiet.eager_drain_full)  from every reachable state
+                            without stale delivery some finite schedule of eager micro-steps
+                            (no new connection, every recv answers EAGAIN, every send accepts
+                            everything, every connect completes, no check_fullness), none of
+                            which crashes, reaches a state that is quiescent or in which a
+                            stale delivery happened
+     eager_drain_sched      ... and that schedule is the one the executable scheduler
+                            Model/StreamDrain.drain computes (flush, dispatch, then handlers);
+                            the final state is even strictly quiescent (no pending connect)
+     d_c01_eventual_delivery  C01: ... in which every byte read before has been delivered
+     d_c02_eventually_not_stuck  C02: ... in which nothing is stuck and every handler waits
+                            for the outside world (or is F20-shaped)
+     d_c09_pause_ends         C09: ... in which no end is paused any more
+
+   Method: a natural-number variant (Model/StreamDrain.mu: bytes x remaining hops, frames
+   x remaining hops with a PING counting for its PONG and a CONNECT for the handler it
+   creates, chunks, the EOF / STOP_SENDING every mux wrapper may still emit, pending
+   connects) that every step of the scheduler makes strictly smaller (sched_some), while the
+   scheduler stops only in strictly quiescent states (sched_none).  No step crashes: a
+   callback only re-raises an unhandled connect errno (Stream_props.callback_crash), a
+   dispatch additionally only trips the CONNECT assertion, which never fires in a state
+   without stale delivery (Stream_assert.connect_assert_never_fires).
+   Only the dispatch steps need the run invariants (Ginv, Sinv); the variant argument
+   itself holds in every state. *)
 From Coq Require Import List NArith Ascii Bool Lia FinFun.
 From SV Require Import Lib.Bytes Model.Wire Model.Chan Model.Stream Model.StreamQuiet Model.StreamDrain
   Proofs.Wire_lemmas Proofs.Chan_lemmas Proofs.Stream_basic Proofs.Stream_wrap Proofs.Stream_cb
@@ -464,8 +491,7 @@ Lemma flush_mu w sd f rest : x_out (e_mux (get_end w sd)) = f :: rest ->
 Proof.
   intros H. cbn [step]. rewrite H. eexists. split; [reflexivity|].
   unfold mu. destruct sd; cbn [get_end set_end w_cl w_sv w_cs w_sc] in *;
-    rewrite ew_set_mux, lw_app; cbn [x_out lw fold_right];
-    [unfold ew at 3|unfold ew at 4]; rewrite H, qw_cons; lia.
+    rewrite ew_set_mux, lw_app; cbn [x_out lw fold_right]; unfold ew; rewrite H, qw_cons; lia.
 Qed.
 
 (* Mux.handle: the next frame of a link is dispatched; this cannot crash *)
@@ -512,7 +538,8 @@ Proof.
 Qed.
 
 (* ================================================================== *)
-(* 5. Progress                                                         *)
+(* 5. The scheduler: every step it takes makes the variant smaller,    *)
+(*    and it stops only in a strictly quiescent state                  *)
 (* ================================================================== *)
 
 Lemma forallb_false_ex {A} (f : A -> bool) l : forallb f l = false -> exists a, In a l /\ f a = false.
@@ -522,104 +549,495 @@ Proof.
   - intros _. exists a. split; [left; reflexivity|exact E].
 Qed.
 
-(* an end with an empty queue that is not quiet (or still has a pending connect)
-   contains a handler the loop still runs which is not quiet (or connecting) *)
-Lemma busy_handler sd e : x_out (e_mux e) = [] -> end_quietb sd e && no_connectingb e = false ->
-  exists fid p, In fid (fids e) /\ e_prox e fid = Some p /\ active p = true /\
-    (s_conn (p_s p) = true \/ proxy_quiet sd fid p (e_mux e) = false).
+Lemma first_busy_some sd e l ev : first_busy sd e l = Some ev ->
+  exists fid p, In fid l /\ e_prox e fid = Some p /\ busy sd fid p (e_mux e) = Some ev.
 Proof.
-  intros Ho H. unfold end_quietb, no_connectingb, out_empty in H. rewrite Ho in H. cbn [andb] in H.
-  apply andb_false_iff in H. destruct H as [H|H]; apply forallb_false_ex in H; destruct H as (fid & Hin & Hf);
-    destruct (e_prox e fid) as [p|] eqn:Ep; try discriminate; destruct (active p) eqn:Ea; try discriminate;
-    exists fid, p; splits; auto.
-  left. apply negb_false_iff in Hf. exact Hf.
+  induction l as [|a l IH]; cbn [first_busy]; [discriminate|].
+  destruct (e_prox e a) as [p|] eqn:Ep.
+  - destruct (busy sd a p (e_mux e)) as [ev'|] eqn:Eb.
+    + intros [= <-]. exists a, p. splits; auto. left. reflexivity.
+    + intros H. destruct (IH H) as (fid & q & Hin & Hq & Hb). exists fid, q. splits; auto. right. exact Hin.
+  - intros H. destruct (IH H) as (fid & q & Hin & Hq & Hb). exists fid, q. splits; auto. right. exact Hin.
 Qed.
 
-(* such a handler has an eager micro-step that makes the variant smaller *)
-Lemma handler_progress w sd fid p :
-  In fid (fids (get_end w sd)) -> e_prox (get_end w sd) fid = Some p -> active p = true ->
-  x_out (e_mux (get_end w sd)) = [] ->
-  (s_conn (p_s p) = true \/ proxy_quiet sd fid p (e_mux (get_end w sd)) = false) ->
-  exists ev w', eager_event ev /\ step w ev = Ok w' /\ mu w' < mu w.
+Lemma first_busy_none sd e l : first_busy sd e l = None ->
+  forall fid p, In fid l -> e_prox e fid = Some p -> busy sd fid p (e_mux e) = None.
 Proof.
-  intros Hin Hp Ha Ho Hb.
+  induction l as [|a l IH]; intros H fid p Hin Ep; [destruct Hin|]. cbn [first_busy] in H.
+  destruct Hin as [->|Hin].
+  - rewrite Ep in H. destruct (busy sd fid p (e_mux e)); [discriminate|reflexivity].
+  - apply IH; auto. destruct (e_prox e a) as [q|]; [|exact H].
+    destruct (busy sd a q (e_mux e)); [discriminate|exact H].
+Qed.
+
+(* a handler the scheduler leaves alone is quiet and not connecting *)
+Lemma busy_none sd fid p x : busy sd fid p x = None -> active p = true ->
+  proxy_quiet sd fid p x = true /\ s_conn (p_s p) = false.
+Proof.
+  unfold busy. intros H Ha. rewrite Ha in H. cbn [negb] in H.
+  destruct (s_conn (p_s p)); [discriminate|].
+  destruct (s_sw (p_s p) && negb (m_sr (p_m p))); [discriminate|].
+  destruct (proxy_quiet sd fid p x); [auto|discriminate].
+Qed.
+
+(* the step the scheduler picks for a handler is eager, cannot crash, and makes the variant smaller *)
+Lemma busy_progress w sd fid p ev :
+  In fid (fids (get_end w sd)) -> e_prox (get_end w sd) fid = Some p ->
+  x_out (e_mux (get_end w sd)) = [] -> busy sd fid p (e_mux (get_end w sd)) = Some ev ->
+  eager_event ev /\ exists w', step w ev = Ok w' /\ mu w' < mu w.
+Proof.
+  intros Hin Hp Ho. unfold busy. destruct (active p) eqn:Ha; cbn [negb]; [|discriminate].
   assert (Hl : live p = true) by (unfold active in Ha; apply andb_true_iff in Ha; apply Ha).
-  assert (Hcb : (s_conn (p_s p) = true \/
-                 (nonempty_buf (s_buf (p_s p)) = true /\ x_too_full (e_mux (get_end w sd)) = false) \/
-                 nonempty_buf (m_buf (p_m p)) = true) ->
-                exists ev w', eager_event ev /\ step w ev = Ok w' /\ mu w' < mu w).
-  { intros C. destruct (callback_mu w sd fid p Hp Hin Hl C) as (w' & Hs & Hlt).
-    exists (EvCallback sd fid eio), w'. splits; auto. exact eager_eio. }
-  destruct Hb as [Hb|Hb]; [apply Hcb; left; exact Hb|].
-  unfold proxy_quiet in Hb.
+  destruct (s_conn (p_s p)) eqn:Ec.
+  { intros [= <-]. split; [exact eager_eio|]. apply (callback_mu w sd fid p Hp Hin Hl). left. exact Ec. }
+  destruct (s_sw (p_s p) && negb (m_sr (p_m p))) eqn:Est.
+  { intros [= <-]. split; [exact I|]. apply andb_true_iff in Est. destruct Est as [E1 E2].
+    apply negb_true_iff in E2. exact (preselect_mu w sd fid p Hp Hin Hl E1 E2). }
+  destruct (proxy_quiet sd fid p (e_mux (get_end w sd))) eqn:Q; [discriminate|].
+  intros [= <-]. split; [exact eager_eio|]. apply (callback_mu w sd fid p Hp Hin Hl). right.
+  unfold proxy_quiet in Q.
   pose proof (pre_select_fields sd fid p (e_mux (get_end w sd))) as F.
   pose proof (wait_set_spec sd fid p (e_mux (get_end w sd))) as Wsp.
   destruct (proxy_pre_select sd fid p (e_mux (get_end w sd))) as [[p1 x1] ws]. cbn [snd] in Wsp.
   destruct F as (_ & _ & F3 & _ & _ & _ & _ & _ & _ & _ & F11).
-  apply andb_false_iff in Hb. destruct Hb as [Hb|Hb].
-  - (* pre_select queues STOP_SENDING *)
-    unfold out_empty in Hb. rewrite F11, Ho in Hb. cbn [app] in Hb.
-    destruct (s_sw (p_s p)) eqn:E1; [|discriminate]. destruct (m_sr (p_m p)) eqn:E2; [discriminate|].
-    destruct (preselect_mu w sd fid p Hp Hin Hl E1 E2) as (w' & Hs & Hlt).
-    exists (EvPreSelect sd fid), w'. splits; auto. exact I.
+  apply andb_false_iff in Q. destruct Q as [Q|Q].
+  - (* pre_select would queue STOP_SENDING: excluded, the scheduler runs pre_select first *)
+    unfold out_empty in Q. rewrite F11, Ho, Est in Q. discriminate.
   - (* a descriptor of the wait set is ready *)
-    apply forallb_false_ex in Hb. destruct Hb as (fd & Hfd & Hr). apply negb_false_iff in Hr.
+    apply forallb_false_ex in Q. destruct Q as (fd & Hfd & Hr). apply negb_false_iff in Hr.
     apply Wsp in Hfd. destruct fd; cbn [fd_ready] in Hr; try discriminate.
-    + apply negb_true_iff in Hr. rewrite F3 in Hr. destruct Hfd as [C|C]; [congruence|].
-      apply Hcb. right. right. exact C.
-    + destruct Hfd as (_ & C1 & C2). apply Hcb. right. left. auto.
+    + destruct Hfd as [C|C]; [congruence|]. right. exact C.
+    + destruct Hfd as (_ & C1 & C2). left. auto.
 Qed.
 
+Lemma sched_some w ev : Ginv w -> Sinv w -> sched w = Some ev ->
+  eager_event ev /\ exists w', step w ev = Ok w' /\ mu w' < mu w.
+Proof.
+  intros G S. unfold sched.
+  destruct (x_out (e_mux (w_cl w))) as [|f1 r1] eqn:E1.
+  2:{ intros [= <-]. split; [exact I|]. exact (flush_mu w Client f1 r1 E1). }
+  destruct (x_out (e_mux (w_sv w))) as [|f2 r2] eqn:E2.
+  2:{ intros [= <-]. split; [exact I|]. exact (flush_mu w Server f2 r2 E2). }
+  destruct (w_cs w) as [|f3 r3] eqn:E3.
+  2:{ intros [= <-]. split; [exact eager_eio|]. apply (deliver_mu w Server G S).
+      cbn [other inlink]. rewrite E3. discriminate. }
+  destruct (w_sc w) as [|f4 r4] eqn:E4.
+  2:{ intros [= <-]. split; [exact eager_eio|]. apply (deliver_mu w Client G S).
+      cbn [other inlink]. rewrite E4. discriminate. }
+  destruct (first_busy Client (w_cl w) (fids (w_cl w))) as [ev1|] eqn:B1.
+  - intros [= <-]. destruct (first_busy_some _ _ _ _ B1) as (fid & p & Hin & Hp & Hb).
+    exact (busy_progress w Client fid p ev1 Hin Hp E1 Hb).
+  - intros B2. destruct (first_busy_some _ _ _ _ B2) as (fid & p & Hin & Hp & Hb).
+    exact (busy_progress w Server fid p ev Hin Hp E2 Hb).
+Qed.
+
+Lemma end_idle sd e : x_out (e_mux e) = [] -> first_busy sd e (fids e) = None ->
+  end_quietb sd e = true /\ no_connectingb e = true.
+Proof.
+  intros Ho B. pose proof (first_busy_none sd e (fids e) B) as H.
+  unfold end_quietb, no_connectingb, out_empty. rewrite Ho. cbn [andb].
+  split; apply forallb_forall; intros fid Hin; destruct (e_prox e fid) as [p|] eqn:Ep; try reflexivity;
+    destruct (active p) eqn:Ha; try reflexivity; destruct (busy_none sd fid p (e_mux e) (H fid p Hin Ep) Ha) as [Q C].
+  - exact Q.
+  - rewrite C. reflexivity.
+Qed.
+
+Lemma sched_none w : sched w = None -> quiescent_eagerb w = true.
+Proof.
+  unfold sched.
+  destruct (x_out (e_mux (w_cl w))) as [|f1 r1] eqn:E1; [|discriminate].
+  destruct (x_out (e_mux (w_sv w))) as [|f2 r2] eqn:E2; [|discriminate].
+  destruct (w_cs w) as [|f3 r3] eqn:E3; [|discriminate].
+  destruct (w_sc w) as [|f4 r4] eqn:E4; [|discriminate].
+  destruct (first_busy Client (w_cl w) (fids (w_cl w))) as [ev1|] eqn:B1; [discriminate|].
+  intros B2. destruct (end_idle Client (w_cl w) E1 B1) as [A1 A2]. destruct (end_idle Server (w_sv w) E2 B2) as [A3 A4].
+  unfold quiescent_eagerb, quiescentb. rewrite E3, E4, A1, A2, A3, A4. reflexivity.
+Qed.
+
+(* progress, in the form asked for: a state that is not strictly quiescent has an eager
+   micro-step that does not crash and makes the variant smaller *)
 Lemma progress w : Ginv w -> Sinv w -> quiescent_eagerb w = false ->
   exists ev w', eager_event ev /\ step w ev = Ok w' /\ mu w' < mu w.
 Proof.
-  intros G S Q.
-  destruct (x_out (e_mux (w_cl w))) as [|f1 r1] eqn:E1.
-  2:{ destruct (flush_mu w Client f1 r1 E1) as (w' & Hs & Hlt). exists (EvFlush Client), w'. splits; auto. exact I. }
-  destruct (x_out (e_mux (w_sv w))) as [|f2 r2] eqn:E2.
-  2:{ destruct (flush_mu w Server f2 r2 E2) as (w' & Hs & Hlt). exists (EvFlush Server), w'. splits; auto. exact I. }
-  destruct (w_cs w) as [|f3 r3] eqn:E3.
-  2:{ destruct (deliver_mu w Server G S) as (w' & Hs & Hlt); [cbn [other inlink]; rewrite E3; discriminate|].
-      exists (EvDeliver Server eio), w'. splits; auto. exact eager_eio. }
-  destruct (w_sc w) as [|f4 r4] eqn:E4.
-  2:{ destruct (deliver_mu w Client G S) as (w' & Hs & Hlt); [cbn [other inlink]; rewrite E4; discriminate|].
-      exists (EvDeliver Client eio), w'. splits; auto. exact eager_eio. }
-  unfold quiescent_eagerb, quiescentb in Q. rewrite E3, E4 in Q. cbn [link_empty andb] in Q.
-  assert (H : end_quietb Client (w_cl w) && no_connectingb (w_cl w) = false \/
-              end_quietb Server (w_sv w) && no_connectingb (w_sv w) = false).
-  { destruct (end_quietb Client (w_cl w)), (end_quietb Server (w_sv w)),
-             (no_connectingb (w_cl w)), (no_connectingb (w_sv w)); cbn in *; auto; discriminate. }
-  destruct H as [H|H].
-  - destruct (busy_handler Client (w_cl w) E1 H) as (fid & p & Hin & Hp & Ha & Hb).
-    exact (handler_progress w Client fid p Hin Hp Ha E1 Hb).
-  - destruct (busy_handler Server (w_sv w) E2 H) as (fid & p & Hin & Hp & Ha & Hb).
-    exact (handler_progress w Server fid p Hin Hp Ha E2 Hb).
+  intros G S Q. destruct (sched w) as [ev|] eqn:Es.
+  - destruct (sched_some w ev G S Es) as (He & w' & Hs & Hlt). exists ev, w'. auto.
+  - rewrite (sched_none w Es) in Q. discriminate.
 Qed.
 
 (* ================================================================== *)
 (* 6. The drain theorem                                                *)
 (* ================================================================== *)
 
-Definition drained (w : world) (drain : list event) : Prop :=
-  Forall eager_event drain /\
-  match run w drain with
+Definition drained (w : world) (d : list event) : Prop :=
+  Forall eager_event d /\
+  match run w d with
   | Ok w' => w_stale w' = true \/ quiescent_eagerb w' = true
   | Crash _ => False
   end.
 
-Lemma drain_fuel n : forall w, mu w < N.of_nat n -> Ginv w -> Sinv w -> exists drain, drained w drain.
+Lemma drain_stale n w : w_stale w = true -> drain n w = [].
+Proof. intros H. destruct n; cbn [drain]; [reflexivity|]. rewrite H. reflexivity. Qed.
+
+Lemma drain_fuel n : forall w, mu w < N.of_nat n -> Ginv w -> Sinv w -> w_stale w = false ->
+  drained w (drain n w).
 Proof.
-  induction n as [|n IH]; intros w Hn G S; [lia|].
-  destruct (quiescent_eagerb w) eqn:Q.
-  { exists []. split; [constructor|]. cbn [run]. right. exact Q. }
-  destruct (progress w G S Q) as (ev & w' & Hev & Hs & Hlt).
-  destruct (w_stale w') eqn:St.
-  { exists [ev]. split; [constructor; [exact Hev|constructor]|]. cbn [run]. rewrite Hs. left. exact St. }
-  destruct (IH w' ltac:(lia) (step_Ginv w ev w' G Hs St) (step_Sinv w ev w' G S Hs)) as (d & Hd & Hr).
-  exists (ev :: d). split; [constructor; assumption|]. cbn [run]. rewrite Hs. exact Hr.
+  induction n as [|n IH]; intros w Hn G S Hst; [lia|]. cbn [drain]. rewrite Hst.
+  destruct (sched w) as [ev|] eqn:Es.
+  - destruct (sched_some w ev G S Es) as (Hev & w' & Hs & Hlt). rewrite Hs.
+    destruct (w_stale w') eqn:St.
+    + rewrite (drain_stale n w' St). split; [constructor; [exact Hev|constructor]|].
+      cbn [run]. rewrite Hs. left. exact St.
+    + destruct (IH w' ltac:(lia) (step_Ginv w ev w' G Hs St) (step_Sinv w ev w' G S Hs) St) as [Hd Hr].
+      split; [constructor; assumption|]. cbn [run]. rewrite Hs. exact Hr.
+  - split; [constructor|]. cbn [run]. right. exact (sched_none w Es).
 Qed.
 
-Theorem drain_from_invariants w : Ginv w -> Sinv w -> exists drain, drained w drain.
+(* the schedule computed by Model/StreamDrain.drain with fuel mu w + 1 *)
+Definition drain_of (w : world) : list event := drain (S (N.to_nat (mu w))) w.
+
+Theorem drain_from_invariants w : Ginv w -> Sinv w -> w_stale w = false -> drained w (drain_of w).
 Proof.
-  intros G S. apply (drain_fuel (S (N.to_nat (mu w))) w); [lia|exact G|exact S].
+  intros G Si Hst. apply (drain_fuel (S (N.to_nat (mu w))) w); [lia|exact G|exact Si|exact Hst].
 Qed.
+
+(* ================================================================== *)
+(* 7. The eager environment delivers no new input                      *)
+(* ================================================================== *)
+
+(* everything the socket of flow f at end sd has returned from recv() so far *)
+Definition rd_of (w : world) (sd : side) (f : N) : bytes := s_rd (pS (e_prox (get_end w sd) f)).
+
+Lemma callback_rd sd fid p x o p' x' : io_recv o = RecvAgain ->
+  proxy_callback sd fid p x o = Ok (p', x') -> s_rd (p_s p') = s_rd (p_s p).
+Proof.
+  intros Er. rewrite proxy_callback_unfold, Er.
+  destruct (s_try_connect (p_s p) (io_conn o) (io_shut_ok o)) as [s0|c] eqn:Etc; [|discriminate].
+  destruct (try_connect_spec _ _ _ _ Etc) as ((_ & T2 & _) & _). cbv zeta. rewrite fill_again.
+  pose proof (copies_spec sd s0 (p_m p) x fid o) as Hc.
+  destruct (copies sd s0 (p_m p) x fid o) as [[s2 m2] x2].
+  destruct Hc as (new & d & _ & _ & _ & _ & _ & Crd & _).
+  set (s3 := if nonempty_buf (s_buf s2) && m_sw m2
+             then s_noread (mkSock (s_conn s2) (s_sr s2) (s_sw s2) [] (s_exc s2) (s_rd s2) (s_wr s2) (s_fault s2))
+             else s2).
+  assert (S3 : s_rd s3 = s_rd s2) by (unfold s3; destruct (nonempty_buf (s_buf s2) && m_sw m2); reflexivity).
+  destruct (if nonempty_buf (m_buf m2) && s_sw s2 then _ else _) as [m3 x3].
+  destruct (s_sr s3 && m_sr m3 && negb (nonempty_buf (s_buf s3)) && negb (nonempty_buf (m_buf m3))).
+  - destruct (m_nowrite m3 x3 fid) as [m4 x4]. intros H. apply ok_pair_inj in H. destruct H as [<- _].
+    cbn [p_s]. destruct (nowrite_spec s3 (io_shut_ok o)) as ((_ & D & _) & _). congruence.
+  - intros H. apply ok_pair_inj in H. destruct H as [<- _]. cbn [p_s]. congruence.
+Qed.
+
+Lemma got_packet_rd sd e fr o e' st : Rinv e -> mux_got_packet sd e fr o = Ok (e', st) ->
+  forall f, s_rd (pS (e_prox e' f)) = s_rd (pS (e_prox e f)).
+Proof.
+  intros R.
+  assert (Hupd : forall g p m' x', e_prox e g = Some p ->
+     forall f, s_rd (pS (e_prox (set_prox e g (mkProxy (p_ok p) (p_removed p) (p_s p) m') x') f)) = s_rd (pS (e_prox e f))).
+  { intros g p m' x' Ep f. cbn [set_prox e_prox]. unfold upd.
+    destruct (N.eqb_spec f g) as [->|Hne]; [rewrite Ep|]; reflexivity. }
+  unfold mux_got_packet. destruct (sf_cmd fr) eqn:Ecmd.
+  - intros H. apply ok_pair_inj in H. destruct H as [<- _]. reflexivity.
+  - intros H. apply ok_pair_inj in H. destruct H as [<- _]. reflexivity.
+  - destruct (occ (e_mux e) (sf_ch fr)); [discriminate|]. destruct sd.
+    + intros H. apply ok_pair_inj in H. destruct H as [<- _]. reflexivity.
+    + unfold server_new_channel.
+      destruct (s_try_connect (new_sock true) (io_conn o) (io_shut_ok o)) as [s|] eqn:Etc; [|discriminate].
+      destruct (try_connect_spec _ _ _ _ Etc) as ((_ & T2 & _) & _).
+      intros H. apply ok_pair_inj in H. destruct H as [<- _]. intros f. cbn [e_prox]. unfold upd.
+      destruct (N.eqb_spec f (e_next e)) as [->|Hne]; [|reflexivity].
+      destruct (e_prox e (e_next e)) as [q|] eqn:Eq.
+      * pose proof (r_fresh e R _ q Eq). lia.
+      * cbn [pS p_s]. rewrite T2. reflexivity.
+  - destruct (x_chan (e_mux e) (sf_ch fr)) as [g|]; [|intros H; apply ok_pair_inj in H; destruct H as [<- _]; reflexivity].
+    destruct (e_prox e g) as [p|] eqn:Ep; [|discriminate]. cbn [m_got_packet].
+    destruct (m_setnowrite (p_m p) (e_mux e)) as [m' x'].
+    intros H. apply ok_pair_inj in H. destruct H as [<- _]. apply (Hupd g p m' x' Ep).
+  - destruct (x_chan (e_mux e) (sf_ch fr)) as [g|]; [|intros H; apply ok_pair_inj in H; destruct H as [<- _]; reflexivity].
+    destruct (e_prox e g) as [p|] eqn:Ep; [|discriminate]. cbn [m_got_packet].
+    destruct (m_setnoread (p_m p) (e_mux e)) as [m' x'].
+    intros H. apply ok_pair_inj in H. destruct H as [<- _]. apply (Hupd g p m' x' Ep).
+  - destruct (x_chan (e_mux e) (sf_ch fr)) as [g|]; [|intros H; apply ok_pair_inj in H; destruct H as [<- _]; reflexivity].
+    destruct (e_prox e g) as [p|] eqn:Ep; [|discriminate]. cbn [m_got_packet].
+    intros H. apply ok_pair_inj in H. destruct H as [<- _]. apply (Hupd g p _ _ Ep).
+  - destruct (x_chan (e_mux e) (sf_ch fr)) as [g|]; [|intros H; apply ok_pair_inj in H; destruct H as [<- _]; reflexivity].
+    destruct (e_prox e g) as [p|] eqn:Ep; [|discriminate]. cbn [m_got_packet]. discriminate.
+Qed.
+
+Lemma eager_step_rd w ev w' : Winv w -> eager_event ev -> step w ev = Ok w' ->
+  forall sd f, rd_of w' sd f = rd_of w sd f.
+Proof.
+  intros W He Hs. unfold rd_of.
+  destruct ev as [payload|sd0 g o|sd0 g|sd0|sd0 o|sd0|sd0 g]; cbn [eager_event] in He; try contradiction.
+  - (* callback *)
+    revert Hs. cbn [step]. destruct (e_prox (get_end w sd0) g) as [p|] eqn:Ep; [|discriminate].
+    destruct (live p); [|discriminate].
+    destruct (proxy_callback sd0 g p (e_mux (get_end w sd0)) o) as [[p' x']|] eqn:Ecb; [|discriminate].
+    intros [= <-] sd f. destruct He as (_ & Er & _). pose proof (callback_rd _ _ _ _ _ _ _ Er Ecb) as Hrd.
+    destruct (side_cases sd sd0) as [->| ->].
+    + rewrite get_set_end. cbn [set_prox e_prox]. unfold upd.
+      destruct (N.eqb_spec f g) as [->|Hne]; [rewrite Ep; exact Hrd|reflexivity].
+    + rewrite get_set_end_other. reflexivity.
+  - (* pre_select *)
+    revert Hs. cbn [step]. destruct (e_prox (get_end w sd0) g) as [p|] eqn:Ep; [|discriminate].
+    destruct (live p); [|discriminate].
+    pose proof (pre_select_spec sd0 g p (e_mux (get_end w sd0))) as F.
+    destruct (proxy_pre_select sd0 g p (e_mux (get_end w sd0))) as [[p' x'] ws].
+    destruct F as (sn & _ & _ & _ & _ & _ & _ & _ & (_ & Hrd & _) & _).
+    intros [= <-] sd f. destruct (side_cases sd sd0) as [->| ->].
+    + rewrite get_set_end. cbn [set_prox e_prox]. unfold upd.
+      destruct (N.eqb_spec f g) as [->|Hne]; [rewrite Ep; exact Hrd|reflexivity].
+    + rewrite get_set_end_other. reflexivity.
+  - (* flush *)
+    intros sd f. destruct (flush_views w sd0 w' Hs) as [_ Hf]. rewrite Hf. reflexivity.
+  - (* deliver *)
+    intros sd f. destruct (inlink w (other sd0)) as [|fr rest] eqn:Hl.
+    { rewrite (deliver_empty w sd0 o w' Hs Hl). reflexivity. }
+    destruct (deliver_shape w sd0 o w' fr rest Hs Hl) as (e' & st & Hg & E1 & E2 & _).
+    destruct (side_cases sd sd0) as [->| ->].
+    + rewrite E1. exact (got_packet_rd _ _ _ _ _ _ (Winv_get w sd0 W) Hg f).
+    + rewrite E2. reflexivity.
+  - (* remove *)
+    intros sd f. destruct (remove_views w sd0 g w' Hs) as [_ Hf]. destruct (Hf sd f) as (E & _). rewrite E. reflexivity.
+Qed.
+
+Lemma eager_run_rd drain : forall w w', Winv w -> Forall eager_event drain -> run w drain = Ok w' ->
+  forall sd f, rd_of w' sd f = rd_of w sd f.
+Proof.
+  induction drain as [|ev drain IH]; intros w w' W Hall; cbn [run].
+  - intros [= <-]. reflexivity.
+  - inversion Hall as [|? ? Hev Hrest]; subst.
+    destruct (step w ev) as [w1|] eqn:Es; [|discriminate]. intros Hr sd f.
+    rewrite (IH w1 w' (step_Winv w ev w1 W Es) Hrest Hr sd f). exact (eager_step_rd w ev w1 W Hev Es sd f).
+Qed.
+
+Lemma run_app a : forall w b, run w (a ++ b) = match run w a with Ok w1 => run w1 b | Crash c => Crash c end.
+Proof.
+  induction a as [|ev a IH]; intros w b; [reflexivity|]. cbn [app run].
+  destruct (step w ev) as [w1|]; [apply IH|reflexivity].
+Qed.
+
+(* ================================================================== *)
+(* 8. The theorems over reachable states                               *)
+(* ================================================================== *)
+
+(* From every reachable state without stale delivery, the eager environment (no new
+   connection, every recv answers EAGAIN, every send accepts everything offered, every
+   pending connect completes, every shutdown succeeds, no check_fullness) runs the two
+   loops, by the finite schedule Model/StreamDrain.drain computes, none of whose steps
+   crashes, to a state in which a stale delivery has happened or which is quiescent —
+   even in the strict sense that no connect is pending any more. *)
+Theorem eager_drain_sched : forall maxc lbs evs w,
+  run (world0 maxc lbs) evs = Ok w -> w_stale w = false -> drained w (drain_of w).
+Proof.
+  intros maxc lbs evs w Hr Hst.
+  destruct (run_GSinv evs _ _ (Ginv_world0 maxc lbs) (Sinv_world0 maxc lbs) Hr Hst) as [G S].
+  exact (drain_from_invariants w G S Hst).
+Qed.
+Print Assumptions eager_drain_sched.
+
+Theorem eager_drain_strong : forall maxc lbs evs w,
+  run (world0 maxc lbs) evs = Ok w -> w_stale w = false ->
+  exists drain, Forall eager_event drain /\
+    match run w drain with
+    | Ok w' => w_stale w' = true \/ quiescent_eagerb w' = true
+    | Crash _ => False
+    end.
+Proof.
+  intros maxc lbs evs w Hr Hst.
+  exists (drain_of w). exact (eager_drain_sched maxc lbs evs w Hr Hst).
+Qed.
+Print Assumptions eager_drain_strong.
+
+(* the statement Stream_quiet.eager_drain_full *)
+Theorem eager_drain : eager_drain_full.
+Proof.
+  intros maxc lbs evs w Hr Hst. destruct (eager_drain_strong maxc lbs evs w Hr Hst) as (drain & Hd & Hq).
+  exists drain. split; [exact Hd|]. destruct (run w drain) as [w'|]; [|exact Hq].
+  destruct Hq as [Hq|Hq]; [left; exact Hq|right].
+  unfold quiescent_eagerb in Hq. apply andb_true_iff in Hq. destruct Hq as [Hq _].
+  apply andb_true_iff in Hq. apply Hq.
+Qed.
+Print Assumptions eager_drain.
+
+(* the same, with the final state named: it is reachable, and nothing was read on the way *)
+Theorem eager_drain_reachable : forall maxc lbs evs w,
+  run (world0 maxc lbs) evs = Ok w -> w_stale w = false ->
+  exists drain w', Forall eager_event drain /\ run w drain = Ok w' /\
+    run (world0 maxc lbs) (evs ++ drain) = Ok w' /\
+    (w_stale w' = true \/ quiescent_eagerb w' = true) /\
+    (forall sd f, rd_of w' sd f = rd_of w sd f).
+Proof.
+  intros maxc lbs evs w Hr Hst. destruct (eager_drain_strong maxc lbs evs w Hr Hst) as (drain & Hd & Hq).
+  destruct (run w drain) as [w'|] eqn:Hrun; [|contradiction].
+  exists drain, w'. splits; auto.
+  - rewrite run_app, Hr. exact Hrun.
+  - apply (eager_run_rd drain w w'); [|exact Hd|exact Hrun].
+    exact (run_Winv evs _ _ (Winv_world0 maxc lbs) Hr).
+Qed.
+Print Assumptions eager_drain_reachable.
+
+(* ---- what holds in a strictly quiescent state ---- *)
+Lemma run_quiescent_eager maxc lbs evs w : run (world0 maxc lbs) evs = Ok w ->
+  quiescent_eagerb w = true -> quiescent_eager w.
+Proof.
+  intros H Hq. apply quiescent_eagerb_spec; [|exact Hq]. exact (run_Winv evs _ _ (Winv_world0 maxc lbs) H).
+Qed.
+
+(* with every connect completed: everything read has been delivered, unless a socket
+   call of the receiving end failed *)
+Lemma quiet_eager_all_delivered maxc lbs w rs f :
+  reachable maxc lbs w -> w_stale w = false -> quiescent_eager w ->
+  let v := view_of w rs f in vwfault v = false -> vD v = vA v.
+Proof.
+  intros Hr Hst Q v Hft. destruct (vfz v) eqn:Hfz.
+  - pose proof (g_views w (reachable_Ginv _ _ _ Hr Hst) rs f) as V. fold v in V.
+    destruct (vi_clean _ V Hfz) as [C|[C _]]; [congruence|exact C].
+  - apply (quiet_eager_no_data maxc lbs w rs f Hr Hst Q Hfz).
+Qed.
+
+(* ---- C01: eventual delivery ---- *)
+(* From every reachable non-stale state some eager schedule leads, without crash, to a
+   state w' that is stale or strictly quiescent, in which — for every flow — every byte
+   that had been read from the application in w (nothing more is read on the way) has been
+   handed to the destination socket, and vice versa, unless a socket call of the
+   receiving end of that flow failed. *)
+Theorem d_c01_eventual_delivery : forall maxc lbs evs w,
+  run (world0 maxc lbs) evs = Ok w -> w_stale w = false ->
+  exists drain w', Forall eager_event drain /\ run w drain = Ok w' /\
+    (w_stale w' = true \/
+     (quiescent_eagerb w' = true /\
+      forall f, (s_fault (pS (sv w' f)) = false -> dst_written w' f = app_read w f) /\
+                (s_fault (pS (cl w' f)) = false -> app_written w' f = dst_read w f))).
+Proof.
+  intros maxc lbs evs w Hr Hst.
+  destruct (eager_drain_reachable maxc lbs evs w Hr Hst) as (drain & w' & Hd & Hrun & Hr' & Hq & Hrd).
+  exists drain, w'. splits; auto.
+  destruct (w_stale w') eqn:St; [left; reflexivity|right].
+  destruct Hq as [C|Hq]; [discriminate|]. split; [exact Hq|]. intros f.
+  pose proof (run_reachable _ _ _ _ Hr') as Rw. pose proof (run_quiescent_eager _ _ _ _ Hr' Hq) as Q.
+  split; intros Hft.
+  - pose proof (quiet_eager_all_delivered maxc lbs w' Client f Rw St Q Hft) as E.
+    unfold dst_written, app_read. specialize (Hrd Client f). unfold rd_of in Hrd. cbn [get_end] in Hrd.
+    unfold cl in *. rewrite <- Hrd. exact E.
+  - pose proof (quiet_eager_all_delivered maxc lbs w' Server f Rw St Q Hft) as E.
+    unfold app_written, dst_read. specialize (Hrd Server f). unfold rd_of in Hrd. cbn [get_end] in Hrd.
+    unfold sv in *. rewrite <- Hrd. exact E.
+Qed.
+Print Assumptions d_c01_eventual_delivery.
+
+(* ---- C02: no stuck state ---- *)
+(* ... to a state in which no direction of any flow whose receiving socket has not been
+   shut down holds undelivered data anywhere (peer's mux buffer, frames on the way, reading
+   end's buffer), and every handler the loop still runs waits for the outside world —
+   directly or through its live peer — or has the F20 shape. *)
+Theorem d_c02_eventually_not_stuck : forall maxc lbs evs w,
+  run (world0 maxc lbs) evs = Ok w -> w_stale w = false ->
+  exists drain w', Forall eager_event drain /\ run w drain = Ok w' /\
+    (w_stale w' = true \/
+     (quiescent_eagerb w' = true /\
+      (forall rs f, let v := view_of w' rs f in
+         vfz v = false -> vY v = [] /\ vP v = [] /\ flat (vX v) = [] /\ vD v = vA v) /\
+      (forall sd f p, e_prox (get_end w' sd) f = Some p -> active p = true ->
+         waits_outside sd f p (e_mux (get_end w' sd)) \/
+         (m_sw (p_m p) = true /\ m_sr (p_m p) = false /\
+          exists q, e_prox (get_end w' (other sd)) f = Some q /\ active q = true /\
+                    m_sr (p_m q) = true /\ m_sw (p_m q) = false /\
+                    waits_outside (other sd) f q (e_mux (get_end w' (other sd))))))).
+Proof.
+  intros maxc lbs evs w Hr Hst.
+  destruct (eager_drain_reachable maxc lbs evs w Hr Hst) as (drain & w' & Hd & Hrun & Hr' & Hq & _).
+  exists drain, w'. splits; auto.
+  destruct (w_stale w') eqn:St; [left; reflexivity|right].
+  destruct Hq as [C|Hq]; [discriminate|].
+  pose proof (run_reachable _ _ _ _ Hr') as Rw. pose proof (run_quiescent_eager _ _ _ _ Hr' Hq) as Q.
+  splits; auto.
+  - intros rs f. exact (quiet_eager_no_data maxc lbs w' rs f Rw St Q).
+  - intros sd f p. exact (quiet_wait_chain maxc lbs w' sd f p Rw St (proj1 Q)).
+Qed.
+Print Assumptions d_c02_eventually_not_stuck.
+
+(* ---- C09: every pause ends ---- *)
+(* ... to a state in which no end is paused by latency control: the round-trip probe of
+   every paused end has been answered. *)
+Theorem d_c09_pause_ends : forall maxc lbs evs w,
+  run (world0 maxc lbs) evs = Ok w -> w_stale w = false ->
+  exists drain w', Forall eager_event drain /\ run w drain = Ok w' /\
+    (w_stale w' = true \/
+     (quiescent_eagerb w' = true /\ tf w' Client = false /\ tf w' Server = false)).
+Proof.
+  intros maxc lbs evs w Hr Hst.
+  destruct (eager_drain_reachable maxc lbs evs w Hr Hst) as (drain & w' & Hd & Hrun & Hr' & Hq & _).
+  exists drain, w'. splits; auto.
+  destruct Hq as [C|Hq]; [left; exact C|right].
+  pose proof (run_reachable _ _ _ _ Hr') as Rw. pose proof (run_quiescent_eager _ _ _ _ Hr' Hq) as Q.
+  splits; auto; apply (quiescent_not_paused maxc lbs w' Rw (proj1 Q)).
+Qed.
+Print Assumptions d_c09_pause_ends.
+
+(* ================================================================== *)
+(* 9. Non-vacuity                                                      *)
+(* ================================================================== *)
+
+(* a reachable state that is not quiescent: the application has written "ab", the DATA
+   frame is still in the client's queue.  The scheduler drains it in three steps, and
+   "ab" arrives at the destination socket. *)
+Definition d_pending : list event :=
+  q_open ++ [EvCallback Client 0 (mkIO ConnDone (RecvData q_ab) SendAgain true)].
+
+Example drain_ex_pending :
+  match run (world0 65535 32768) d_pending with
+  | Ok w =>
+    w_stale w = false /\ quiescentb w = false /\
+    drain_of w = [EvFlush Client; EvDeliver Server eio; EvCallback Server 0 eio] /\
+    match run w (drain_of w) with
+    | Ok w' => w_stale w' = false /\ quiescent_eagerb w' = true /\
+               dst_written w 0 = [] /\ dst_written w' 0 = q_ab /\ app_read w 0 = q_ab
+    | Crash _ => False
+    end
+  | Crash _ => False
+  end.
+Proof. vm_compute. splits; reflexivity. Qed.
+
+(* the variant along that drain: strictly decreasing *)
+Example drain_ex_variant :
+  match run (world0 65535 32768) d_pending with
+  | Ok w =>
+    match run w [EvFlush Client], run w [EvFlush Client; EvDeliver Server eio], run w (drain_of w) with
+    | Ok w1, Ok w2, Ok w3 => (mu w, mu w1, mu w2, mu w3) = (34, 32, 23, 20)
+    | _, _, _ => False
+    end
+  | Crash _ => False
+  end.
+Proof. vm_compute. reflexivity. Qed.
+
+(* from the very first state: the two initial PINGs are flushed, dispatched, answered *)
+Example drain_ex_initial :
+  length (drain_of (world0 65535 32768)) = 8%nat /\
+  match run (world0 65535 32768) (drain_of (world0 65535 32768)) with
+  | Ok w' => quiescent_eagerb w' = true /\ mu w' = 0
+  | Crash _ => False
+  end.
+Proof. vm_compute. splits; reflexivity. Qed.
+
+(* a paused end (LATENCY_BUFFER_SIZE = 3: check_fullness after 5000 buffered bytes) with a
+   pending connect at the server, data in both a socket buffer and a queue: the drain
+   ends the pause, completes the connect and delivers all 5000 bytes *)
+Definition d_big : bytes := repeat (ascii_of_N 65) 5000.
+Definition d_paused : list event :=
+  let ioP := mkIO (ConnErr EInProgress) RecvAgain SendAgain true in
+  [EvAccept []; EvFlush Client; EvFlush Client; EvDeliver Server ioP; EvDeliver Server ioP;
+   EvCallback Client 0 (mkIO ConnDone (RecvData d_big) SendAgain true); EvCheckFull Client].
+
+Example drain_ex_paused :
+  match run (world0 65535 3) d_paused with
+  | Ok w =>
+    w_stale w = false /\ quiescentb w = false /\ tf w Client = true /\
+    s_conn (pS (sv w 0)) = true /\
+    match run w (drain_of w) with
+    | Ok w' => w_stale w' = false /\ quiescent_eagerb w' = true /\ tf w' Client = false /\
+               dst_written w' 0 = d_big /\ length (drain_of w) = 21%nat
+    | Crash _ => False
+    end
+  | Crash _ => False
+  end.
+Proof. vm_compute. splits; reflexivity. Qed.
